@@ -576,12 +576,126 @@ fn shared_field(s1: usize, s2: usize, res: &mut CaseResult) -> Option<(String, V
     ))
 }
 
+/// The words stated about the covered field (all compatible with a 32-bit
+/// field that is also read as two 16-bit halves).
+fn covered_field_words() -> Vec<Ev> {
+    vec![
+        Ev::word(Some(32), WordUse::UnsignedNumeric),
+        Ev::word(Some(32), WordUse::Bytes),
+        Ev::word(Some(32), WordUse::Numeric),
+        Ev::word(None, WordUse::UnsignedNumeric),
+        Ev::word(None, WordUse::Bytes),
+        Ev::word(None, WordUse::Numeric),
+        Ev::Any,
+    ]
+}
+
+fn covered_field_cases() -> u64 {
+    let n = covered_field_words().len() as u64;
+    n + n * (n - 1) / 2
+}
+
+/// One 32-bit field `b` of a word that is also read as two 16-bit halves
+/// (`packed[(a,0,16),(c,16,16)]` and `packed[(b,0,32)]` on the same value),
+/// with one or two words stated about `b`: both on `b`, or the second on a
+/// variable equated with `b`. The merge of the two encodings refines `b` in a
+/// later round than the one that folds the words, so this is grouping by
+/// rounds with fresh variables in play; the outcome for `b` and for the word
+/// must not depend on the grouping or on the schedule.
+fn covered_field(k: usize, res: &mut CaseResult) -> Option<(String, Value)> {
+    let words = covered_field_words();
+    let n = words.len();
+    let (e1, e2): (Ev, Option<Ev>) = if k < n {
+        (words[k].clone(), None)
+    } else {
+        let mut idx = k - n;
+        let mut i = 0;
+        while idx >= n - 1 - i {
+            idx -= n - 1 - i;
+            i += 1;
+        }
+        (words[i].clone(), Some(words[i + 1 + idx].clone()))
+    };
+    // variables: 0 = x (the word), 1 = a, 2 = c, 3 = b, 4 = b2
+    let base = vec![
+        (0usize, Ev::Packed { spans: vec![(1, 0, 16), (2, 16, 16)], is_struct: false }),
+        (0usize, Ev::Packed { spans: vec![(3, 0, 32)], is_struct: false }),
+    ];
+    let mut deliveries: Vec<(&'static str, EvidenceSet)> = Vec::new();
+    let mut both = base.clone();
+    both.push((3, e1.clone()));
+    if let Some(e2) = &e2 {
+        both.push((3, e2.clone()));
+    }
+    deliveries.push(("both stated about the field", EvidenceSet { n_vars: 5, judgements: both }));
+    if let Some(e2) = &e2 {
+        let mut split = base.clone();
+        split.push((3, e1.clone()));
+        split.push((4, e2.clone()));
+        split.push((3, Ev::Equal { other: 4 }));
+        deliveries.push(("split over two equated variables", EvidenceSet { n_vars: 5, judgements: split }));
+        let mut swapped = base.clone();
+        swapped.push((4, e1.clone()));
+        swapped.push((3, e2.clone()));
+        swapped.push((4, Ev::Equal { other: 3 }));
+        deliveries.push(("split the other way round", EvidenceSet { n_vars: 5, judgements: swapped }));
+    }
+    let show = |o: &UnifyOutcome, v: usize| -> String {
+        if let Some(p) = &o.panic {
+            return format!("Panic({})", p.signature);
+        }
+        if o.budget_exhausted {
+            return "DidNotTerminate".into();
+        }
+        match o.data[o.class[v]].as_deref() {
+            Some([TE::Packed { types, is_struct }]) => {
+                let mut l: Vec<(usize, usize)> = types.iter().map(|s| (s.offset, s.size)).collect();
+                l.sort_unstable();
+                format!("{}{l:?}", if *is_struct { "struct" } else { "packed" })
+            }
+            Some([TE::Conflict { .. }]) => "Conflict".into(),
+            Some(other) => format!("{:?}", other.iter().map(evidence::te_kind).collect::<Vec<_>>()),
+            None => "nothing".into(),
+        }
+    };
+    let mut scheds: Vec<Sched> = (0..4).map(Sched::natural).collect();
+    scheds.push(Sched::adversarial(1, 1000, storage_layout_extractor::verif::MENU_REVERSE));
+    scheds.push(Sched::adversarial(2, 1000, storage_layout_extractor::verif::MENU_ALL));
+    let mut seen: BTreeSet<String> = BTreeSet::new();
+    let mut by_delivery: Vec<Value> = Vec::new();
+    for (label, ev) in &deliveries {
+        for sched in &scheds {
+            let o = run_unify(ev, sched, &UnifyOpts::default());
+            res.runs += 1;
+            res.steps += o.polls;
+            res.fold_orders.push(o.record.fold_digest);
+            res.fault("field_refined_by_a_later_round");
+            let out = format!("field {} | word {}", show(&o, 3), show(&o, 0));
+            if seen.insert(out.clone()) {
+                by_delivery.push(json!({"delivery": label, "schedule": sched.label(), "outcome": out}));
+            }
+        }
+    }
+    if seen.len() <= 1 {
+        return None;
+    }
+    let mut kinds = vec![e1.kind()];
+    if let Some(e2) = &e2 {
+        kinds.push(e2.kind());
+    }
+    kinds.sort();
+    Some((
+        format!("covered-field:[{}] gives {{{}}}", kinds.join(", "), seen.iter().cloned().collect::<Vec<_>>().join(" || ")),
+        json!({"stated_about_the_field": kinds, "first_occurrences": by_delivery}),
+    ))
+}
+
 impl Check for C16Check {
     fn info(&self) -> CheckInfo {
         CheckInfo {
             id: "C16",
             level: "fault_enumeration",
-            rule: "case = one multiset E of distinct pieces from the 38-piece domain (Any, dynamic bytes, 4 free usages x 6 widths, 4 fixed-width usages, Mapping(a,b), Mapping(b,a), DynArray(a), DynArray(b), FixedArray(a)[3], FixedArray(b)[3], FixedArray(a)[5], a conflict): all 703 pairs and all 8436 triples (thorough: also all 73815 quadruples); each E is delivered to the real unifier in all |E|! fold orders (scripted at the fold scheduling point), in all |E|! recording orders, under 2 further hash keys, in every 2-way split over two equated variables, and in every 2-way split over two variables that become equal only in a later round; all deliveries must give the same normalised outcome. Each 2-way split is also delivered with a unification in between two stages (derived equality first, then the same equality stated and the deriving class made contradictory), which must equal the same evidence unified once, through the free function and through TypeChecker::unify; the equated split is also recorded with infer_many. 25 further cases: one 128-bit field shared by two words, each word also seen with a layout that cuts the field (at 16/32/64/96/112 bits), under 15 schedules; the field's layout must be the one the two cuts give when stated about the field directly. evaluations = unifier runs; non-trivial = a multiset whose deliveries folded at least two pieces (all of them); distinct = distinct multisets",
+            rule: "case = one multiset E of distinct pieces from the 38-piece domain (Any, dynamic bytes, 4 free usages x 6 widths, 4 fixed-width usages, Mapping(a,b), Mapping(b,a), DynArray(a), DynArray(b), FixedArray(a)[3], FixedArray(b)[3], FixedArray(a)[5], a conflict): all 703 pairs and all 8436 triples (thorough: also all 73815 quadruples); each E is delivered to the real unifier in all |E|! fold orders (scripted at the fold scheduling point), in all |E|! recording orders, under 2 further hash keys, in every 2-way split over two equated variables, and in every 2-way split over two variables that become equal only in a later round; all deliveries must give the same normalised outcome. Each 2-way split is also delivered with a unification in between two stages (derived equality first, then the same equality stated and the deriving class made contradictory), which must equal the same evidence unified once, through the free function and through TypeChecker::unify; the equated split is also recorded with infer_many. 25 further cases: one 128-bit field shared by two words, each word also seen with a layout that cuts the field (at 16/32/64/96/112 bits), under 15 schedules; the field's layout must be the one the two cuts give when stated about the field directly. 28 more: a 32-bit field that its word also shows as two 16-bit halves, with one or two of seven compatible words stated about it (both on the field, or split over an equated variable, either way round) under 6 schedules; all must agree. evaluations = unifier runs; non-trivial = a multiset whose deliveries folded at least two pieces (all of them); distinct = distinct multisets",
             assumptions: &[
                 "merge is only observed through unification::unify, so the check cannot demand more than the system-level statement",
                 "outcomes are compared after erasing conflict payloads and replacing type variables by the class of the named variables a, b",
@@ -593,6 +707,7 @@ impl Check for C16Check {
     fn cases(&self, tier: Tier) -> u64 {
         let n = domain().len() as u64;
         shared_field_cases()
+            + covered_field_cases()
             + match tier {
                 Tier::Quick => choose(n, 2) + choose(n, 3),
                 Tier::Thorough => choose(n, 2) + choose(n, 3) + choose(n, 4),
@@ -609,8 +724,23 @@ impl Check for C16Check {
     fn run_case(&self, idx: u64, seed: u64, tier: Tier) -> CaseResult {
         let mut res = CaseResult::default();
         let Some(e) = multiset(idx, tier) else {
-            // The cases after the multisets: the shared-field scenarios.
-            let k = (idx - (self.cases(tier) - shared_field_cases())) as usize;
+            // The cases after the multisets: the shared-field and the
+            // covered-field scenarios.
+            let k = (idx - (self.cases(tier) - shared_field_cases() - covered_field_cases())) as usize;
+            if k >= shared_field_cases() as usize {
+                let k = k - shared_field_cases() as usize;
+                res.nontrivial.push(idx);
+                res.probe("covered_field_scenarios");
+                if let Some((sig, detail)) = covered_field(k, &mut res) {
+                    res.violations.push(Violation {
+                        property:  "C16".into(),
+                        signature: sig,
+                        detail:    json!({"case": idx, "explanation": detail}),
+                        replay:    json!({"check": "C16", "kind": "covered_field", "k": k}),
+                    });
+                }
+                return res;
+            }
             let (s1, s2) = (FIELD_SPLITS[k / FIELD_SPLITS.len()], FIELD_SPLITS[k % FIELD_SPLITS.len()]);
             res.nontrivial.push(idx);
             res.probe("shared_field_scenarios");
@@ -665,6 +795,16 @@ impl Check for C16Check {
     }
 
     fn replay(&self, payload: &Value) -> Result<Option<Violation>, String> {
+        if payload["kind"].as_str() == Some("covered_field") {
+            let k = payload["k"].as_u64().ok_or("no k")? as usize;
+            let mut res = CaseResult::default();
+            return Ok(covered_field(k, &mut res).map(|(sig, detail)| Violation {
+                property: "C16".into(),
+                signature: sig,
+                detail,
+                replay: payload.clone(),
+            }));
+        }
         if payload["kind"].as_str() == Some("shared_field") {
             let s1 = payload["cuts"][0].as_u64().ok_or("no cuts")? as usize;
             let s2 = payload["cuts"][1].as_u64().ok_or("no cuts")? as usize;
